@@ -316,6 +316,17 @@ def step (w : World) (line : String) : World × String :=
         | (w', some id) => (w', toString id)
         | (w', none) => (w', "raise"))
     | _, _ => (w, "bad-op")
+  | ["cogk", k, t] =>
+    -- `create_or_get_observer(Kind, tag=t)` WITHOUT a condition: the first subscribed observer of the class whatever its tag,
+    -- else a new one built with that keyword argument
+    match parseKind k, t.toNat? with
+    | some kind, some tag =>
+      (match w.subs.find? (fun id => (w.heap[id]?.map (·.kind)) == some kind) with
+       | some id => (w, toString id)
+       | none => (match w.construct kind tag with
+          | (w', some id) => (w', toString id)
+          | (w', none) => (w', "raise")))
+    | _, _ => (w, "bad-op")
   | ["cog", k] =>
     match parseKind k with
     | some kind => (match w.createOrGet kind with
@@ -817,6 +828,7 @@ def stepAll (d : DW) (line : String) : DW × String :=
     -- would give, nothing of the original changes
     let (_, out) := step d.w ("disp " ++ j ++ " " ++ p ++ " " ++ m)
     (d, out)
+  | ["scribble"] => (d, "ok")    -- a third party writes into the arrays a composite handed out: the composite's own business until its next update
   | ["xform"] => (d, "ok")       -- instance transformations applied to the instance produce NEW instances: nothing changes here
   | ["disp", j, p, m] =>
     let (w', out) := step d.w line
